@@ -191,6 +191,16 @@ func (s *Specs) ParseFile(path, pkgPath string) error {
 				key = strings.TrimSpace(key[:i])
 			}
 			if d.kw == "view" {
+				// "view <key> at <caller>, <caller>": only for call sites inside those functions
+				if i := strings.Index(key, " at "); i > 0 {
+					callers := strings.Split(key[i+4:], ",")
+					key = strings.TrimSpace(key[:i])
+					cur = &Contract{Key: key, ParamNames: names, Loops: map[int]*LoopSpec{}, File: d.file, Line: d.line, Pkg: pkgPath, Trusted: true, IsView: true}
+					for _, c := range callers {
+						s.Views["fn:"+strings.TrimSpace(c)+"|"+key] = cur
+					}
+					break
+				}
 				// a trusted abstract view of another package's function, used only at the call
 				// sites of the declaring package
 				cur = &Contract{Key: key, ParamNames: names, Loops: map[int]*LoopSpec{}, File: d.file, Line: d.line, Pkg: pkgPath, Trusted: true, IsView: true}
